@@ -1,8 +1,9 @@
 import Oas3Model.Driver.Util
 import Oas3Model.Driver.Naming
+import Oas3Model.Driver.Sse
 open Lean Oas3.Driver
 
-def allOps : List (String × Handler) := Oas3.Driver.Naming.ops
+def allOps : List (String × Handler) := Oas3.Driver.Naming.ops ++ Oas3.Driver.Sse.ops
 
 def handleLine (line : String) : String :=
   match Json.parse line with
